@@ -125,7 +125,7 @@ def vector_field(rng, mesh, names, arr, valid=None, identity=None):
     if identity is None:
         identity = rng.random() < 0.25
     perm = np.arange(nd) if identity else rng.permutation(nd)
-    mapping = {ll[j]: names[int(perm[j])] for j in range(nd)}
+    mapping = gen.shuffle_keys(rng, {ll[j]: names[int(perm[j])] for j in range(nd)})
     kw = {} if valid is None else {"valid": valid.copy()}
     f = df.Field(mesh, nvdim=nd, value=arr, vdims=ll if (labels is not None or nd == 1)
                  else None, vdim_mapping=mapping, **kw)
